@@ -23,6 +23,8 @@ from dataclasses import dataclass, field
 
 from happysimulator.core.entity import Entity
 from happysimulator.core.event import Event
+from happysimulator.components.resource import Resource
+from happysimulator.core.sim_future import SimFuture
 from happysimulator.core.simulation import Simulation
 from happysimulator.core.temporal import Duration, Instant
 from happysimulator.distributions.constant import ConstantLatency
@@ -47,10 +49,17 @@ class Prog:
     override: dict = field(default_factory=dict)   # (p, q) -> ticks: link.latency object (constant)
     real_dist: bool = False  # link.latency is a real ConstantLatency (else a duck-typed object with sample())
     cby: dict = field(default_factory=dict)        # timer id -> id of the event whose handler cancels it
+    daemon: frozenset = frozenset()                # ids of daemon events (only with a finite end_time)
+    pre: dict = field(default_factory=dict)        # id -> "future" | "resource": the handler yields an already
+                                                   # resolved SimFuture / acquires a free capacity-1 Resource
+                                                   # before it emits its children (same instant)
+    park: dict = field(default_factory=dict)       # i -> r: the handler of i emits its only child r and parks on
+                                                   # a SimFuture; the handler of r resolves it; the children of r
+                                                   # are emitted by the resumed generator of i (same instant)
 
     def key(self):
         return (tuple(self.ep), self.np, tuple(sorted(self.links)), tuple(sorted(self.lat.items())), self.w,
-                self.end_t, tuple(self.evs), tuple(sorted(self.cby.items())))
+                self.end_t, tuple(self.evs), tuple(sorted(self.cby.items())), tuple(sorted(self.daemon)))
 
     def cancels(self):
         out = {}
@@ -94,6 +103,16 @@ class Prog:
             tb, gb, _pb = self.evs[b - 1]
             assert gc == gb and tb < tc and c not in self.cont and b not in self.cont
             assert pc == 0 or (self.evs[pc - 1][1] == gc and self.evs[pc - 1][0] < tb)
+        kids = self.kids()
+        assert not self.daemon or self.end_t != INF
+        for i in self.daemon:
+            assert i not in self.cont and not any(c in self.cont for c in kids[i])
+        for i in self.pre:
+            assert i not in self.cont and not any(c in self.cont for c in kids[i]) and i not in self.park
+        for i, r in self.park.items():
+            assert kids[i] == [r] and self.evs[r - 1][1] == self.evs[i - 1][1]
+            assert not ({i, r} & set(self.cont)) and not any(c in self.cont for c in kids[r])
+            assert r not in self.cby and r not in self.park and r not in self.pre and i not in self.daemon
         if self.links:
             assert 1 <= self.w <= min(self.lat.values())
 
@@ -131,7 +150,10 @@ class Prog:
         return Prog(ep=self.ep, np=self.np, links=self.links, lat=self.lat, w=self.w, end_t=self.end_t, evs=evs,
                     cont=frozenset(new_of[c] for c in self.cont if c in new_of), override=self.override,
                     real_dist=self.real_dist,
-                    cby={new_of[c]: new_of[b] for c, b in self.cby.items() if c in new_of and b in new_of})
+                    cby={new_of[c]: new_of[b] for c, b in self.cby.items() if c in new_of and b in new_of},
+                    daemon=frozenset(new_of[i] for i in self.daemon if i in new_of),
+                    pre={new_of[i]: k for i, k in self.pre.items() if i in new_of},
+                    park={new_of[i]: new_of[r] for i, r in self.park.items() if i in new_of and r in new_of})
 
     @staticmethod
     def from_state(st):
@@ -142,7 +164,8 @@ class Prog:
         return Prog(ep=list(c["ep"]), np=c["np"], links=[tuple(x) for x in links], lat=lat, w=st["w"],
                     end_t=c["endT"], evs=[(e["t"], e["tgt"], e["par"]) for e in st["ev"]],
                     override={l: lat[l] for l in ovl}, real_dist=bool(ovl),
-                    cby={i: e["cby"] for i, e in enumerate(st["ev"], start=1) if e.get("cby")})
+                    cby={i: e["cby"] for i, e in enumerate(st["ev"], start=1) if e.get("cby")},
+                    daemon=frozenset(i for i, e in enumerate(st["ev"], start=1) if e.get("d")))
 
 
 @dataclass
@@ -243,6 +266,10 @@ class World:
         self.kids = prog.kids()
         self.cancels = prog.cancels()
         self.created = {}                                # event id -> Event (timers a handler may cancel)
+        self.resolver_of = {r: i for i, r in prog.park.items()}
+        self.futs = {}                                   # resolver id -> SimFuture the parked handler waits on
+        self.res = {e: Resource(f"res{e}", 1) for e in
+                    sorted({prog.evs[i - 1][1] for i, k in prog.pre.items() if k == "resource"})}
         self.nodes = {e: Node(e, self) for e in range(1, len(prog.ep) + 1)}
         self.elog = {e: [] for e in self.nodes}          # entity -> [(i, now_ns)]
         self.precs = {p: [] for p in range(1, prog.np + 1)}   # partition -> [window dict]
@@ -318,7 +345,7 @@ class World:
             a, b = self.prog.part_of_ev(parent), self.prog.part_of_ev(c)
             if a != b and (a, b) in self.prog.override:
                 at = now_ns      # the coordinator overwrites it with send_time + link.latency.sample()
-        ev = Event(time=Instant(at), event_type=f"e{c}", target=self.nodes[g])
+        ev = Event(time=Instant(at), event_type=f"e{c}", target=self.nodes[g], daemon=c in self.prog.daemon)
         self.created[c] = ev
         return ev
 
@@ -330,6 +357,15 @@ class World:
         now_ns = node.now.nanoseconds
         self.record(node._idx, i, now_ns)
         self.do_cancels(i)
+        if i in self.resolver_of:
+            fut = self.futs.get(i)
+            if fut is not None:
+                fut.resolve(None)       # the parked handler resumes (same instant) and emits the children of i
+            return None
+        if i in self.prog.park:
+            return self._parking(node, i)
+        if i in self.prog.pre:
+            return self._pre_resolved(node, i)
         if any(c in self.prog.cont for c in self.kids[i]):
             return self._process(node, i)
         out = self.out_events(i, now_ns)
@@ -338,6 +374,24 @@ class World:
         if self.opts.form == "single" and len(out) == 1:
             return out[0]
         return out
+
+    def _parking(self, node, i):
+        r = self.prog.park[i]
+        fut = SimFuture()
+        self.futs[r] = fut
+        yield 0.0, [self.child_event(i, r, node.now.nanoseconds)]
+        yield fut                                  # parks until the handler of r resolves it
+        return [self.child_event(r, c, node.now.nanoseconds) for c in self.kids[r]]
+
+    def _pre_resolved(self, node, i):
+        if self.prog.pre[i] == "resource":
+            grant = yield self.res[node._idx].acquire(1)      # capacity 1, free: granted at once
+            grant.release()
+        else:
+            fut = SimFuture()
+            fut.resolve(None)
+            yield fut                              # already resolved: resumes through the active heap
+        return self.out_events(i, node.now.nanoseconds)
 
     def _process(self, node, i):
         """Generator form: event i's handler yields the delay of its continuation child k, the part of
@@ -378,7 +432,8 @@ def _initial_events(world: World):
     out = []
     for i, (t, g, par) in enumerate(world.prog.evs, start=1):
         if par == 0:
-            ev = Event(time=Instant(t * world.tick_ns), event_type=f"e{i}", target=world.nodes[g])
+            ev = Event(time=Instant(t * world.tick_ns), event_type=f"e{i}", target=world.nodes[g],
+                       daemon=i in world.prog.daemon)
             world.created[i] = ev
             out.append((i, ev))
     return out
@@ -389,7 +444,7 @@ def run_sequential(prog: Prog, opts: Opts) -> World:
     kw = {}
     if prog.end_t != INF:
         kw["end_time"] = Instant(prog.end_t * opts.tick_ns)
-    sim = Simulation(entities=[world.nodes[e] for e in sorted(world.nodes)], **kw)
+    sim = Simulation(entities=[world.nodes[e] for e in sorted(world.nodes)] + list(world.res.values()), **kw)
     for _i, ev in _initial_events(world):
         sim.schedule(ev)
     _tl.world, _tl.part = world, 0
@@ -411,6 +466,7 @@ def run_separate(prog: Prog, opts: Opts) -> World:
     sims = {}
     for p in range(1, prog.np + 1):
         ents = [world.nodes[e] for e in sorted(world.nodes) if prog.ep[e - 1] == p]
+        ents += [world.res[e] for e in world.res if prog.ep[e - 1] == p]
         sims[p] = Simulation(entities=ents, **kw)
     for i, ev in _initial_events(world):
         sims[prog.part_of_ev(i)].schedule(ev)
@@ -430,7 +486,8 @@ def run_parallel(prog: Prog, opts: Opts) -> World:
     tick_s = opts.tick_ns / 1e9
     names = {p: f"P{p}" for p in range(1, prog.np + 1)}
     parts = [SimulationPartition(name=names[p],
-                                 entities=[world.nodes[e] for e in sorted(world.nodes) if prog.ep[e - 1] == p])
+                                 entities=[world.nodes[e] for e in sorted(world.nodes) if prog.ep[e - 1] == p]
+                                 + [world.res[e] for e in world.res if prog.ep[e - 1] == p])
              for p in range(1, prog.np + 1)]
     links = []
     for (a, b) in prog.links:
@@ -554,7 +611,8 @@ def make_trace(tid: int, prog: Prog, par: World, ref: World) -> dict:
     log.append(["end"])
     return {"id": tid, "mode": "coord" if coord else "indep", "ep": prog.ep, "np": prog.np,
             "links": [[a, b, prog.lat[(a, b)]] for (a, b) in prog.links], "w": prog.w, "endT": prog.end_t,
-            "n0": n0, "s0": s0, "evs": [list(e) + [prog.cby.get(i, 0)] for i, e in enumerate(prog.evs, start=1)], "seq": ref.entity_log_ticks(), "log": log,
+            "n0": n0, "s0": s0, "evs": [list(e) + [prog.cby.get(i, 0), 1 if i in prog.daemon else 0]
+                    for i, e in enumerate(prog.evs, start=1)], "seq": ref.entity_log_ticks(), "log": log,
             "ovl": [list(l) for l in sorted(prog.override)] if prog.real_dist else [], "err": err}
 
 
